@@ -32,8 +32,8 @@ var properties = map[string]propSpec{
 	"C05": {Rules: rl{ruleOwnerGuard, ruleAnswers, ruleSenderExcluded, ruleIDGenerator}, Keep: kp{"D1", "B5", "J1", "D3"}},
 	"C06": {Rules: rl{ruleLeaveComplete, ruleLeaveCallers, ruleModuleCleanup, ruleCascade, ruleDecoratorForward, ruleMutateRelay, ruleSnapshot, ruleSubscriptions, ruleStoreContracts}, Keep: kp{"E1", "E2", "E3", "E4", "E6", "E9", "A2", "C1", "C7", "S-UnsubscribeAll", "S-DeleteByEntity"}},
 	"C07": {Rules: rl{ruleLeaveComplete, ruleLeaveCallers}, Keep: kp{"E1", "E2", "E6"}},
-	"C08": {Rules: rl{ruleDecoratorForward, rulePBNil}, Keep: kp{"A2", "G1"}},
-	"C09": {Rules: rl{ruleGuardedBy, ruleNoEscape, ruleLockOrder, ruleLockPairing, ruleSplitCriticalSection}},
+	"C08": {Rules: rl{ruleDecoratorForward, rulePBNil, ruleFunnelOnce, ruleGaugePair, ruleWaitFor, rulePanicContainment}, Keep: kp{"A2", "G1", "E5", "G5", "G6", "F4", "G2"}},
+	"C09": {Rules: rl{ruleGuardedBy, ruleNoEscape, ruleLockOrder, ruleLockPairing, ruleSplitCriticalSection, ruleWaitFor}},
 	"C10": {Rules: rl{ruleIDGenerator, ruleStoreContracts, ruleSplitCriticalSection}, Keep: kp{"D3", "D4", "E8a"}},
 	"C11": {Rules: rl{rulePBNil, ruleSnapshot, ruleAnswers, ruleOwnerGuard}, Keep: kp{"G1", "C11-pose", "B5", "D1"}},
 	"C12": {Rules: rl{ruleStoreContracts, ruleCascade, ruleErrorDiscipline, ruleSplitCriticalSection}, Keep: kp{"S-", "D4", "E4", "ERR", "E8a"}},
